@@ -862,6 +862,10 @@ func (env *Env) applySpecFunc(sf *SpecFunc, argsE []*Expr) (*Val, error) {
 		sorts = append(sorts, c.sortOf(pts[i]))
 		terms = append(terms, a.T)
 	}
+	if sf.Ghost {
+		sorts = append(sorts, sortTok)
+		terms = append(terms, env.st.tok)
+	}
 	name := c.declFun("sf$"+sf.Name, sorts, c.sortOf(rt))
 	if len(terms) == 0 {
 		return &Val{T: name, Typ: rt, ConstLen: -1}, nil
